@@ -271,6 +271,29 @@ type faultSpec struct {
 	N      int    `json:"n,omitempty"` // short / crashshort: number of bytes that still arrive (0 = half of the write)
 }
 
+// switchCtx: the caller's context; it can be ended from inside a backend operation, as cancelled or as timed out.
+type switchCtx struct {
+	context.Context
+	mu   sync.Mutex
+	done chan struct{}
+	err  error
+}
+
+func (s *switchCtx) Done() <-chan struct{} { return s.done }
+func (s *switchCtx) Err() error {
+	s.mu.Lock()
+	defer s.mu.Unlock()
+	return s.err
+}
+func (s *switchCtx) end(reason error) {
+	s.mu.Lock()
+	defer s.mu.Unlock()
+	if s.err == nil {
+		s.err = reason
+		close(s.done)
+	}
+}
+
 func (f *faultSpec) shortN(n int) int {
 	if f.N > 0 && f.N < n {
 		return f.N
@@ -293,6 +316,7 @@ type client struct {
 	gate     func(c *client, op *shim.Op) // scheduling hook for remote operations (may block)
 	ctx      context.Context
 	cancel   context.CancelFunc
+	endCtx   func(error) // ends the caller's context with the given reason (context.Canceled / context.DeadlineExceeded)
 }
 
 func isLockPath(p string) bool { return strings.Contains(p, "/"+filesystem.LockFilePrefix+"-") }
@@ -301,7 +325,8 @@ func isRemote(p string) bool   { return strings.HasPrefix(p, remoteRoot) }
 func (w *world) newClient(kind string, timeout time.Duration, staleView bool) *client {
 	w.nclients++
 	c := &client{id: w.nclients, w: w, kind: kind}
-	c.ctx, c.cancel = context.WithCancel(context.Background())
+	sc := &switchCtx{Context: context.Background(), done: make(chan struct{})}
+	c.ctx, c.cancel, c.endCtx = sc, func() { sc.end(context.Canceled) }, sc.end
 	c.sh = shim.New(w.inner, c.hook)
 	c.sh.Rec = false
 	if staleView {
@@ -372,6 +397,12 @@ func (c *client) hook(op *shim.Op) error {
 			return &shim.ShortWriteError{N: f.shortN(op.N)}
 		}
 		return errInjected
+	case "ctxcancel":
+		c.endCtx(context.Canceled) // the operation itself still happens: the context ends from inside it
+		return nil
+	case "ctxdeadline":
+		c.endCtx(context.DeadlineExceeded)
+		return nil
 	case "closelost":
 		if op.Name == "f.Close" {
 			if fh, e := c.w.inner.OpenFile(op.Path, os.O_WRONLY|os.O_TRUNC, 0o644); e == nil {
